@@ -150,6 +150,41 @@ def run(ctx):
     if n_look < 1:
         raise AnalysisError('C20.R2: task lookup in handle_expired_actions '
                             'lost')
+    # every raising lookup made per action is inside the not-found guard
+    # (an escaping DBEntityNotFoundError rolls the whole batch back and the
+    # same batch is selected again on every pass)
+    enc = cfg.enclosing_trys if hasattr(cfg, 'enclosing_trys') else None
+    loops_ast = [x for x in own_nodes(he.node) if isinstance(x, ast.For) and
+                 dotted(x.iter) == 'action_exs']
+    n_get = 0
+    for lp in loops_ast:
+        for c in ast.walk(lp):
+            if not (isinstance(c, ast.Call) and
+                    isinstance(c.func, ast.Attribute) and
+                    dotted(c.func.value) == 'db_api' and
+                    c.func.attr.startswith('get_')):
+                continue
+            n_get += 1
+            covered = False
+            for t in ast.walk(lp):
+                if isinstance(t, ast.Try) and any(
+                        y is c for b in t.body for y in ast.walk(b)):
+                    for h in t.handlers:
+                        ht = U.handler_types(h)
+                        if any(x.split('.')[-1] in (
+                                'DBEntityNotFoundError', 'DBError',
+                                'MistralException', 'Exception')
+                                for x in ht) and not any(
+                                isinstance(y, ast.Raise)
+                                for y in ast.walk(h)):
+                            covered = True
+            r2.check(covered, ctx.construct(he, c),
+                     'a raising lookup (%s) made for one action of the '
+                     'batch is outside the DBEntityNotFoundError guard: one '
+                     'action whose parent vanished aborts and rolls back '
+                     'the whole batch' % U.call_dotted(c), ctx.loc(he, c))
+    if n_get < 2:
+        raise AnalysisError('C20.R2: per-action lookups lost (%d)' % n_get)
     # every selected action reaches on_action_complete unless skipped by
     # the not-found handler
     oc = U.calls_in(cfg, 'on_action_complete')
@@ -274,6 +309,18 @@ def run(ctx):
                  ctx.construct(ic, extra=U.call_name(c) + ' guarded'),
                  '%s reachable for a missing or finished workflow'
                  % U.call_name(c), ctx.loc(ic, c))
+    # the chain of checks is started only with the execution (and on
+    # rerun): it must re-arm itself for EVERY unfinished state, a paused
+    # workflow included - resume does not start a new chain
+    for n, c in rs:
+        vals = {x[0] for x in IN[n.id]}
+        missing = set(sd.ALL) - completed - vals
+        r4.check(not missing, ctx.construct(ic, extra='re-armed for every '
+                                            'unfinished state'),
+                 'the check does not reschedule itself while the workflow '
+                 'is %s: the chain ends and tasks that get stuck later '
+                 '(after resume) are never recovered' % sorted(missing),
+                 ctx.loc(ic, c))
     r4.check(cfg.dominates(rs[0][0], scan[0][0]),
              ctx.construct(ic, extra='reschedule before scanning'),
              'the check does not reschedule itself before scanning (an '
